@@ -643,6 +643,9 @@ pub struct GenOpts {
     pub blobreuse: bool,
     /// C01: a lookup whose disk load is held in flight while the key is removed / overwritten
     pub inflight: bool,
+    /// C09: 64 KiB blocks (a block can become more than 80% invalid): all keys of a block in the middle of the fill
+    /// order are deleted, so the invalid-ratio picker reclaims it out of order; the device then wraps several times
+    pub invalid: bool,
 }
 
 pub fn gen_cfg(rng: &mut Rng, o: GenOpts) -> HybCfg {
@@ -849,6 +852,63 @@ pub fn run_blobreuse(rng: &mut Rng) -> String {
     out
 }
 
+/// Directed scenario (C09): one-page entries of fresh keys fill 64 KiB blocks (15 entries each); once a few blocks
+/// are full, every key of one block in the middle of the fill order is removed (that block is then > 80% invalid
+/// and the invalid-ratio picker takes it out of order); inserts continue for several device capacities.  The
+/// manager's event log (with the picked block's invalid bytes) feeds the reclaim-order monitor.
+pub fn run_invalid(rng: &mut Rng) -> String {
+    let thr = *rng.pick(&[1usize, 1, 2]);
+    let cfg = HybCfg {
+        woi: true,
+        foc: true,
+        tomb: rng.chance(1, 2),
+        memcap: 2,
+        lru: false,
+        blocks: 8,
+        flushers: 1,
+        lossy: true,
+        thr,
+        reclaimers: 1,
+        reins: 0,
+        bsize: 64 * 1024,
+        domain: "blk".into(),
+        hmode: HMode::Id,
+        keys: 8,
+    };
+    let mut out = cfg.line();
+    out.push('\n');
+    *crate::CUR_TRACE.lock() = out.clone();
+    let mut ex = HExec::new(cfg);
+    ex.skip_loads = true;
+    let per_block = 15u64;
+    let victim_block = rng.range(1, 3); // fill index of the block whose keys are removed
+    let filled_before = rng.range(4, 6); // blocks filled before the removes
+    let total = 8 * per_block * rng.range(3, 5);
+    let mut next_key = 1000u64;
+    let mut written: Vec<u64> = vec![];
+    for i in 0..total {
+        let k = next_key;
+        next_key += 1;
+        written.push(k);
+        out.push_str(&ex.exec(&HOp::WIns { k, sz: 's', force: true }));
+        out.push('\n');
+        if i + 1 == filled_before * per_block {
+            let lo = (victim_block * per_block) as usize;
+            for k in written[lo..lo + per_block as usize].to_vec() {
+                out.push_str(&ex.exec(&HOp::Rm { k }));
+                out.push('\n');
+            }
+        }
+        if rng.chance(1, 16) {
+            out.push_str(&ex.exec(&HOp::Wait));
+            out.push('\n');
+        }
+    }
+    out.push_str(&ex.exec(&HOp::Wait));
+    out.push('\n');
+    out
+}
+
 /// Directed scenario (C01): key 0 has a version on disk only; a lookup misses memory and its disk load is held in
 /// flight; meanwhile the key is removed, or overwritten, or both; the load is released; then the key is looked up.
 /// The trace is judged by the monitors only (`directed=inflight`: the sequential key-level model has no lookups
@@ -919,6 +979,9 @@ pub fn run_case(rng: &mut Rng, maxops: u64, o: GenOpts) -> String {
     }
     if o.inflight {
         return run_inflight(rng);
+    }
+    if o.invalid {
+        return run_invalid(rng);
     }
     let cfg = gen_cfg(rng, o);
     let mut out = cfg.line();
@@ -1021,6 +1084,7 @@ pub fn main(args: &Args) -> i32 {
         reins: arg_u64(args, "reins", 0) == 1,
         blobreuse: arg_u64(args, "blobreuse", 0) == 1,
         inflight: arg_u64(args, "inflight", 0) == 1,
+        invalid: arg_u64(args, "invalid", 0) == 1,
     };
     let mut rng = Rng::new(seed ^ 0x4B1D);
     for _ in 0..cases {
